@@ -183,7 +183,10 @@ def load_known(prop):
     try:
         with open(KNOWN) as f:
             for e in json.load(f)["findings"]:
-                if e["property"] == prop and e.get("status") == "known":
+                ep = e["property"]
+                # a defect at one site can violate several properties (a parser panic breaks C06, C16, C17 and C20):
+                # "property" may be a list of ids
+                if (ep == prop or (isinstance(ep, list) and prop in ep)) and e.get("status") == "known":
                     out[e["key"]] = e["what"]
     except FileNotFoundError:
         pass
